@@ -27,6 +27,8 @@ Inductive case :=
 | CKey (secret : bytes) (len : N) (obs : option key)
 (* deriveClaimKeyInfo: None = error *)
 | CClaimKey (p : policy) (secret : bytes) (obs : option (key * bytes))
+(* a sequence of imports into ONE cache (starting empty), then the entry filed under [id] *)
+| CSeq (steps : list (bool * bytes * import_opts)) (id : bytes) (lo hi : Z) (obs : option oentry)
 (* strconv round trip used by the expiry: claimExpiration on a policy holding SessionExpires = s *)
 | CExpiry (s : bytes) (fallback_ns : Z) (lo hi : Z) (obs : oexp)
 (* MintClaimSession; [sess_exp] is the SessionExpires integer found in the claim text (0 if none),
@@ -119,6 +121,12 @@ Definition check_case (c : case) : bool :=
       match derive_claim_key p secret, obs with
       | Ok (k, proto), Some (k', proto') => key_eqb k k' && bytes_eqb proto proto'
       | Err, None => true
+      | _, _ => false
+      end
+  | CSeq steps id lo hi obs =>
+      match cache_lookup id (import_seq steps []), obs with
+      | Some e, Some e' => entry_matches e e' lo hi
+      | None, None => true
       | _, _ => false
       end
   | CExpiry s fb lo hi obs =>
